@@ -152,6 +152,8 @@ func runC19Case(c *fw.Ctx, id string, cs c19Case) {
 			}
 			return nil
 		}
+	case "after-lonely-split":
+		// handled below: a connection that has lost all its regions before Close
 	case "zk-blocked":
 		// ZooKeeper does not answer until Close has returned
 		cl.ZKBlock = hold
@@ -245,6 +247,31 @@ func runC19Case(c *fw.Ctx, id string, cs c19Case) {
 		}
 		rec.end = time.Now()
 		atomic.StoreInt32(&rec.returned, 1)
+	}
+	if cs.Point == "after-lonely-split" {
+		// the last region ("t".."") is alone on rs1; it splits and its daughters
+		// open on rs0: the healthy connection to rs1 serves no region any more,
+		// and Close must still close it
+		regs := cl.Regions("t")
+		last := regs[len(regs)-1]
+		for _, rg := range regs[:len(regs)-1] {
+			cl.MoveRegion(rg.Name, "rs0:16020")
+		}
+		cl.MoveRegion(last.Name, "rs1:16020")
+		wctx, wc := context.WithTimeout(context.Background(), 10*time.Second)
+		for _, k := range []string{"a1", "u1"} {
+			g, _ := hrpc.NewGetStr(wctx, "t", k)
+			client.Get(g)
+		}
+		if _, err := cl.SplitRegion(last.Name, []byte("w"), "rs0:16020", "rs0:16020"); err == nil {
+			for _, k := range []string{"u1", "x1"} {
+				g, _ := hrpc.NewGetStr(wctx, "t", k)
+				client.Get(g)
+			}
+			c.Count("lonely_splits_before_close", 1)
+		}
+		wc()
+		fire()
 	}
 	for g := 0; g < cs.Callers; g++ {
 		wg.Add(1)
@@ -441,12 +468,12 @@ func init() {
 		},
 		Floors: func(tier string) map[string]int64 {
 			return map[string]int64{"runs": 200, "close_point_before-dial": 3, "close_point_during-dial": 3, "close_point_during-probe": 3,
-				"close_point_during-meta-lookup": 3, "close_point_during-backoff": 3, "close_point_zk-failing": 3, "close_point_zk-blocked": 3, "close_point_instant": 20,
+				"close_point_during-meta-lookup": 3, "close_point_during-backoff": 3, "close_point_zk-failing": 3, "close_point_zk-blocked": 3, "lonely_splits_before_close": 3, "close_point_instant": 20,
 				"calls_in_flight_at_close": 50, "post_close_calls": 60, "connections_opened": 60, "goroutine_census_checks": 50}
 		},
 		Run: func(c *fw.Ctx) {
 			r := c.Rand("c19")
-			points := []string{"before-dial", "during-dial", "during-probe", "during-meta-lookup", "during-backoff", "zk-failing", "zk-blocked", "scanner-open", "batch"}
+			points := []string{"before-dial", "during-dial", "during-probe", "during-meta-lookup", "during-backoff", "zk-failing", "zk-blocked", "after-lonely-split", "scanner-open", "batch"}
 			var cases []c19Case
 			for rep := 0; rep < c.Pick(12, 80); rep++ {
 				for _, p := range points {
